@@ -186,6 +186,9 @@ VEC_FILES = {"graph": ["src/lib.rs"],
              "pie": ["src/pie.rs", "src/context/bottom_up.rs", "src/tracker/event.rs", "src/store.rs"]}
 
 
+LAYOUT_ATTRS = [("pie", "src/store.rs", "enum NodeData {", "#[repr(u8)]")]
+
+
 def _inject_after_header(text, line):
     """Insert `line` before the first item of a (non-root) module file."""
     return _inject_root_line(text, line)
@@ -247,6 +250,15 @@ def build_kani_ws(root, hfiles, caps, hashorder=False, vecmodel=False):
             t = t.replace("extern crate kstd as std;", "extern crate kstd as std;\n#[allow(unused_imports)] use std::kvec::Vec;", 1)
         t += f'\n#[cfg(kani)]\n#[path = "{hdir}/vk.rs"]\npub(crate) mod verif_vk;\n'
         open(lib, "w").write(t)
+    # layout-only attributes: force an explicit tag on enums whose discriminant rustc would hide in a pointer niche
+    # (Kani reads such a niche as an integer, which CBMC cannot constant-fold; semantics are unchanged)
+    for crate, rel, needle, attr in LAYOUT_ATTRS:
+        fp = os.path.join(root, crate, rel)
+        if os.path.exists(fp):
+            src = open(fp).read()
+            if needle in src and (attr + "\n" + needle) not in src:
+                open(fp, "w").write(src.replace(needle, attr + "\n" + needle, 1))
+                hashes["injected:" + crate + "/" + rel] = attr + " " + needle
     if vecmodel:
         for crate in ("graph", "pie"):
             for rel in VEC_FILES[crate]:
